@@ -14,7 +14,7 @@ from vcheck.oracle import intervals, reader
 PROPERTY = "C18"
 LEVEL = "exploration"
 BUDGET_S = {"quick": 40, "thorough": 600}
-FLOOR = {"quick": 1500, "thorough": 15000}
+FLOOR = {"quick": 800, "thorough": 15000}
 MUST_REACH = ("range_ports_contract_evaluations", "range_protocols_judged", "rejected_as_expected")
 RULE = ("requests: 1..12 disjoint singletons and a-b ranges in any order over 1..65535 (biased small so that names appear) "
         "resp. 0..255; source or destination side (sometimes both); tcp/udp templates with eq / range / no operator on "
